@@ -7,6 +7,11 @@
      Stats   one run of whatshap.cli.stats.run_stats on a VCF written from the
              abstract view `chroms` (see Stats.tla) of the reported sample:
                chroms  <<[name, sites]>>          only   --only-snvs
+                       one entry per contiguous RUN of records of a chromosome, in
+                       file order; in an un-indexed file a name may occur in several
+                       non-adjacent entries (chrA.., chrB.., chrA..): the chromosome
+                       is then all records of that name, whatever number of rows
+                       the tool spreads them over (the numbers of its rows are summed)
                sel     --chromosome names (<<>> = none given)
                rows    per-chromosome rows of the --tsv file, records
                        [c, variants, het, hetsnvs, phased, phsnvs, unphased,
@@ -37,14 +42,22 @@ RECURSIVE SumCol(_, _)
 SumCol(rows, col) == IF rows = <<>> THEN 0 ELSE Head(rows)[col] + SumCol(Tail(rows), col)
 
 (* ---------------------------------------------------------------- Stats *)
-SitesOf(e, c) == LET m == { i \in DOMAIN e.chroms : e.chroms[i].name = c }
-                 IN IF m = {} THEN <<>> ELSE e.chroms[CHOOSE i \in m : TRUE].sites
+(* all records of chromosome c: the sites of every run named c, in file order *)
+RECURSIVE CatSites(_, _, _)
+CatSites(ch, c, i) == IF i > Len(ch) THEN <<>>
+                      ELSE (IF ch[i].name = c THEN ch[i].sites ELSE <<>>) \o CatSites(ch, c, i + 1)
+SitesOf(e, c) == CatSites(e.chroms, c, 1)
 View(e, c)     == Considered(SitesOf(e, c), e.only)
+NumRuns(e, c)  == Cardinality({ i \in DOMAIN e.chroms : e.chroms[i].name = c /\ Len(e.chroms[i].sites) > 0 })
+(* the rows of chromosome c and the sum of one of their columns *)
+NameRows(e, c) == SelectSeq(e.rows, LAMBDA r : r.c = c)
+Tot(e, c, col) == SumCol(NameRows(e, c), col)
 Selected(e, c) == Len(e.sel) = 0 \/ c \in Rng(e.sel)
 RowNames(e)    == { e.rows[i].c : i \in DOMAIN e.rows }
 (* the chromosomes of the file that the run has to report *)
 Requested(e)   == { e.chroms[i].name : i \in { j \in DOMAIN e.chroms : Len(e.chroms[j].sites) > 0 /\ Selected(e, e.chroms[j].name) } }
-EachRow(e, P(_, _)) == \A i \in DOMAIN e.rows : P(e.rows[i], View(e, e.rows[i].c))
+(* P(c, V): about the summed rows of chromosome c and the view V of all its records *)
+EachName(e, P(_, _)) == \A c \in RowNames(e) : P(c, View(e, c))
 
 (* features / lines of one chromosome *)
 LinesOf(e, c) == { e.blist[i] : i \in { j \in DOMAIN e.blist : e.blist[j][1] = c } }
@@ -62,18 +75,18 @@ JudgeStats(e) ==
     IF e.exc # "" THEN Fail(e, "Returns")
     ELSE
     /\ Check(e, "Rows", /\ e.names                       \* every line names the reported sample, the files are well-formed
-                        /\ NoDup([i \in DOMAIN e.rows |-> e.rows[i].c])
+                        /\ \A c \in RowNames(e) : Len(NameRows(e, c)) <= Max2(1, NumRuns(e, c))   \* at most one row per run of records
                         /\ \A c \in RowNames(e) : Selected(e, c)
                         /\ \A i \in DOMAIN e.chroms :
                               (Len(e.chroms[i].sites) > 0 /\ Selected(e, e.chroms[i].name)) => e.chroms[i].name \in RowNames(e))
-    /\ Check(e, "Variants",     EachRow(e, LAMBDA r, V : r.variants = Variants(V)))
-    /\ Check(e, "Heterozygous", EachRow(e, LAMBDA r, V : r.het = Hets(V)))
-    /\ Check(e, "HetSnvs",      EachRow(e, LAMBDA r, V : r.hetsnvs = HetSnvs(V)))
-    /\ Check(e, "Phased",       EachRow(e, LAMBDA r, V : r.phased = Phased(V)))
-    /\ Check(e, "PhasedSnvs",   EachRow(e, LAMBDA r, V : r.phsnvs = PhasedSnvs(V)))
-    /\ Check(e, "Unphased",     EachRow(e, LAMBDA r, V : r.unphased = Unphased(V)))
-    /\ Check(e, "Singletons",   EachRow(e, LAMBDA r, V : r.singletons = Singletons(V)))
-    /\ Check(e, "Blocks",       EachRow(e, LAMBDA r, V : r.blocks = Blocks(V)))
+    /\ Check(e, "Variants",      EachName(e, LAMBDA c, V : Tot(e, c, "variants") = Variants(V)))
+    /\ Check(e, "Heterozygous",  EachName(e, LAMBDA c, V : Tot(e, c, "het") = Hets(V)))
+    /\ Check(e, "HetSnvs",       EachName(e, LAMBDA c, V : Tot(e, c, "hetsnvs") = HetSnvs(V)))
+    /\ Check(e, "Phased",        EachName(e, LAMBDA c, V : Tot(e, c, "phased") = Phased(V)))
+    /\ Check(e, "PhasedSnvs",    EachName(e, LAMBDA c, V : Tot(e, c, "phsnvs") = PhasedSnvs(V)))
+    /\ Check(e, "Unphased",      EachName(e, LAMBDA c, V : Tot(e, c, "unphased") = Unphased(V)))
+    /\ Check(e, "Singletons",    EachName(e, LAMBDA c, V : Tot(e, c, "singletons") = Singletons(V)))
+    /\ Check(e, "Blocks",        EachName(e, LAMBDA c, V : Tot(e, c, "blocks") = Blocks(V)))
     \* the two identities, on the reported numbers themselves (ALL row included)
     /\ Check(e, "SumIdentity",  \A r \in Rng(e.rows) \cup Rng(e.all) : r.phased + r.unphased + r.singletons = r.het)
     /\ Check(e, "BlockSizeSum", \A r \in Rng(e.rows) \cup Rng(e.all) : r.vsum = r.phased)
@@ -81,8 +94,8 @@ JudgeStats(e) ==
                                 /\ \A i \in DOMAIN e.blist : e.blist[i][1] \in RowNames(e)
                                 /\ \A c \in RowNames(e) \cup Requested(e) :     \* also for a requested chromosome that got no row
                                       { <<b[2], b[3], b[4], b[5]>> : b \in LinesOf(e, c) } = BlockLines(View(e, c)))
-    /\ Check(e, "BpSumBound",   EachRow(e, LAMBDA r, V : BpSumOK(V, r.bpsum)))
-    /\ Check(e, "BpSumWhenDisjoint", EachRow(e, LAMBDA r, V : BpSumExact(V, r.bpsum)))
+    /\ Check(e, "BpSumBound",   EachName(e, LAMBDA c, V : BpSumOK(V, Tot(e, c, "bpsum"))))
+    /\ Check(e, "BpSumWhenDisjoint", EachName(e, LAMBDA c, V : BpSumExact(V, Tot(e, c, "bpsum"))))
     /\ Check(e, "AllRowIsSum",  /\ Len(e.all) <= 1
                                 /\ (Len(e.rows) >= 2 => Len(e.all) = 1)
                                 /\ (Len(e.all) = 1 => \A col \in Cols : e.all[1][col] = SumCol(e.rows, col)))
